@@ -18,6 +18,11 @@ pub struct Schedule {
     /// (point name, k, salt). Steers preemptions to the places where threads actually meet.
     #[serde(default)]
     pub at_point: Vec<(String, u32, u8)>,
+    /// a thread spinning on a task that is being polled elsewhere (`exec.unavailable`) gets the baton
+    /// back at the other thread's next schedule point, as a spinning thread really would, instead of
+    /// waiting until the other thread is preempted or done
+    #[serde(default)]
+    pub spinner_comes_back: bool,
 }
 
 #[derive(Clone, Debug, PartialEq, Eq)]
@@ -33,6 +38,7 @@ struct St {
     current: Option<usize>,
     status: Vec<Status>,
     yielding: Vec<bool>,
+    spinner: Option<usize>,
     locks: BTreeMap<(&'static str, usize), usize>,
     decision: u32,
     schedule: Schedule,
@@ -71,6 +77,7 @@ impl Ctl {
                 current: None,
                 status: vec![Status::NotStarted; threads],
                 yielding: vec![false; threads],
+                spinner: None,
                 locks: BTreeMap::new(),
                 decision: 0,
                 schedule,
@@ -116,6 +123,16 @@ impl Ctl {
         let me_ok = elig.contains(&me) && !st.yielding[me];
         let others: Vec<usize> = elig.iter().copied().filter(|i| *i != me).collect();
         let mut pick = if me_ok { me } else if !others.is_empty() { others[0] } else { me };
+        if st.schedule.spinner_comes_back {
+            if let Some(sp) = st.spinner {
+                if sp != me {
+                    st.spinner = None;
+                    if elig.contains(&sp) && st.decision < st.step_cap {
+                        pick = sp;
+                    }
+                }
+            }
+        }
         if st.decision < st.step_cap {
             let by_index = st.schedule.preempt_at.iter().find(|(d, _)| *d == idx).map(|(_, salt)| *salt);
             let by_name = at.and_then(|(name, nth)| st.schedule.at_point.iter().find(|(n, k, _)| n == name && u64::from(*k) + 1 == nth).map(|(_, _, salt)| *salt));
@@ -221,6 +238,9 @@ impl crux_core::verif::Controller for Ctl {
         *st.point_counts.entry(name).or_insert(0) += 1;
         let nth = st.point_counts[name];
         st.status[me] = Status::AtPoint(name);
+        if name == "exec.unavailable" {
+            st.spinner = Some(me);
+        }
         if name == "exec.unavailable" || name == "rwlock.contended" || name == "mutex.contended" {
             // spin-wait on another thread: somebody else has to run before this one continues
             st.yielding[me] = true;
